@@ -28,6 +28,7 @@ RULE = (
     "non-trivial = two tasks are alive at the same time and at least one of them enters a block "
     "after the other was started"
 )
+RULE += ' Rounds 10-13: DEEP scripts (one task nests 4-12 (17) blocks next to observers); scopes whose only state comes from a disposable; several spawns into one scope from different positions / tasks, two tasks stepping in one loop iteration, the root running its script in one step.'
 ASSUMPTIONS = [
     "scripts are well nested; blocks still open at the end of a script are closed in LIFO order",
     "a task started by plain create_task inherits the context (asyncio contract)",
